@@ -235,7 +235,7 @@ func (g *G) design() {
 	if g.p.Security {
 		g.schemes()
 	}
-	if g.p.Errors && rapid.IntRange(0, 3).Draw(t, "apierr") == 0 {
+	if g.p.Errors && rapid.IntRange(0, 1).Draw(t, "apierr") == 0 {
 		e := &m.ErrorDef{Name: "api_error"}
 		d.API.Errors = append(d.API.Errors, e)
 		d.API.ErrorResp = append(d.API.ErrorResp, &m.ErrorResponse{Name: e.Name, Status: 503, Level: "api"})
